@@ -206,11 +206,14 @@ Section W.
   Qed.
 
   (* ---- the guards of the partition-of-unity theorems are needed *)
+  (* the witness does not lean on the value of 1/0: the two fractions are x * /0 and
+     -x * /0, which cancel whatever /0 is *)
   Lemma fj_sum1_guard_needed :
     exists a : list (list R), Rsum (map Rsum a) = 0 /\ Rsum (f_j Nm a) <> 1.
   Proof.
-    exists [[0]]. split; [unfold Rsum; cbn; lra|].
-    rewrite f_j_R. unfold Rsum. cbn. unfold Rdiv. rewrite Rplus_0_l at 1. rewrite Rmult_0_l. lra.
+    exists [[1]; [-1]]. split; [unfold Rsum; cbn; lra|].
+    rewrite f_j_R. unfold Rsum. cbn. unfold Rdiv.
+    generalize (/ (1 + 0 + (-1 + 0 + 0))). intros z. lra.
   Qed.
 
   Lemma fj_nonneg_guard_needed :
